@@ -22,6 +22,8 @@ pub const K_G1: u8 = 2;
 pub const K_G2: u8 = 3;
 /// 256-bit blob variable (hash digest, or an arbitrary 32-byte string); id = var index
 pub const K_DIGEST: u8 = 4;
+/// one 8-byte limb of a blob variable inside a transcript; id = var*4 + limb index
+pub const K_LIMB: u8 = 5;
 /// stand for byte strings that are *not* a canonical / on-curve / in-subgroup encoding
 pub const K_BAD_SCALAR: u8 = 0x11;
 pub const K_BAD_G1: u8 = 0x12;
@@ -35,6 +37,8 @@ pub enum Node {
     Sub(Tid, Tid),
     Mul(Tid, Tid),
     Neg(Tid),
+    /// 64-bit limb `idx` (little-endian position) of a 256-bit blob variable: (V div 2^(64 idx)) mod 2^64
+    Limb(u32, u8),
 }
 
 #[derive(Clone, Copy, Debug, PartialEq, Eq)]
@@ -266,6 +270,7 @@ impl Arena {
         let sh = match &n {
             Node::Const(c) => *c,
             Node::Var(v) => fq::reduce(&self.vars[*v as usize].shadow),
+            Node::Limb(v, i) => [self.vars[*v as usize].shadow[*i as usize], 0, 0, 0],
             Node::Add(a, b) => fq::add(&self.shadow[*a as usize], &self.shadow[*b as usize]),
             Node::Sub(a, b) => fq::sub(&self.shadow[*a as usize], &self.shadow[*b as usize]),
             Node::Mul(a, b) => fq::mul(&self.shadow[*a as usize], &self.shadow[*b as usize]),
@@ -554,7 +559,50 @@ pub fn token<const L: usize>(kind: u8, id: u32) -> [u8; L] {
     write_token(&mut b, kind, id);
     b
 }
+pub const LIMB_MAGIC: [u8; 2] = [0xFF, 0x5A];
+/// 8 bytes standing for limb `idx` of blob variable `var`: [0xFF, 0x5A, 0xB0|idx, var(4 LE), epoch(1)]
+pub fn limb_token(var: u32, idx: u8) -> [u8; 8] {
+    let epoch = with(|a| a.epoch);
+    let v = var.to_le_bytes();
+    [LIMB_MAGIC[0], LIMB_MAGIC[1], 0xB0 | idx, v[0], v[1], v[2], v[3], epoch as u8]
+}
+pub fn parse_limb(b: &[u8]) -> Option<(u32, u8)> {
+    if b.len() >= 8 && b[0] == LIMB_MAGIC[0] && b[1] == LIMB_MAGIC[1] && (b[2] & 0xF0) == 0xB0 && (b[2] & 0x0F) < 4 {
+        let var = u32::from_le_bytes([b[3], b[4], b[5], b[6]]);
+        let ok = with(|a| (a.epoch as u8) == b[7] && (var as usize) < a.vars.len() && a.vars[var as usize].kind == VarKind::Blob);
+        if ok {
+            return Some((var, b[2] & 0x0F));
+        }
+    }
+    None
+}
+/// Some(var) if the 32 bytes are the four limbs 0..3 of one blob variable, in order
+pub fn parse_blob(b: &[u8]) -> Option<u32> {
+    if b.len() < 32 {
+        return None;
+    }
+    let (v0, i0) = parse_limb(&b[0..8])?;
+    if i0 != 0 {
+        return None;
+    }
+    for k in 1..4u8 {
+        let (v, i) = parse_limb(&b[8 * k as usize..8 * k as usize + 8])?;
+        if v != v0 || i != k {
+            return None;
+        }
+    }
+    Some(v0)
+}
 pub fn write_token(b: &mut [u8], kind: u8, id: u32) {
+    if kind == K_DIGEST {
+        // a 32-byte blob is written limb by limb, so that code which re-assembles, drops or reorders 8-byte words of it
+        // (ChannelId::to_scalar, ChallengeBuilder::finish) is seen doing so
+        assert_eq!(b.len(), 32, "blob tokens are 32 bytes");
+        for k in 0..4u8 {
+            b[8 * k as usize..8 * k as usize + 8].copy_from_slice(&limb_token(id, k));
+        }
+        return;
+    }
     assert!(b.len() >= TOKEN_LEN);
     let epoch = with(|a| a.epoch);
     for x in b.iter_mut() {
@@ -575,6 +623,8 @@ pub fn untoken(b: &[u8]) -> Option<(u8, u32, usize)> {
         assert_eq!(epoch, cur, "symex: token from another run leaked into this one");
         let w = u16::from_le_bytes([b[17], b[18]]) as usize;
         Some((b[8], u32::from_le_bytes([b[9], b[10], b[11], b[12]]), w))
+    } else if let Some(v) = parse_blob(b) {
+        Some((K_DIGEST, v, 32))
     } else {
         None
     }
@@ -585,16 +635,26 @@ pub fn parse_items(bytes: &[u8]) -> Vec<Item> {
     let mut lit: Vec<u8> = vec![];
     let mut i = 0;
     while i < bytes.len() {
+        let mut tok: Option<(u8, u32, usize)> = None;
         if i + TOKEN_LEN <= bytes.len() && bytes[i..i + 8] == MAGIC {
             let (kind, id, w) = untoken(&bytes[i..]).unwrap();
             if i + w <= bytes.len() && w >= TOKEN_LEN {
-                if !lit.is_empty() {
-                    items.push(Item::Lit(std::mem::take(&mut lit)));
-                }
-                items.push(Item::Tok { kind, id, width: w });
-                i += w;
-                continue;
+                tok = Some((kind, id, w));
             }
+        } else if i + 32 <= bytes.len() && parse_blob(&bytes[i..i + 32]).is_some() {
+            tok = Some((K_DIGEST, parse_blob(&bytes[i..i + 32]).unwrap(), 32));
+        } else if i + 8 <= bytes.len() {
+            if let Some((v, idx)) = parse_limb(&bytes[i..i + 8]) {
+                tok = Some((K_LIMB, v * 4 + idx as u32, 8));
+            }
+        }
+        if let Some((kind, id, w)) = tok {
+            if !lit.is_empty() {
+                items.push(Item::Lit(std::mem::take(&mut lit)));
+            }
+            items.push(Item::Tok { kind, id, width: w });
+            i += w;
+            continue;
         }
         lit.push(bytes[i]);
         i += 1;
@@ -612,6 +672,10 @@ fn shadow_bytes(a: &Arena, items: &[Item]) -> Vec<u8> {
         match it {
             Item::Lit(l) => out.extend_from_slice(l),
             Item::Tok { kind, id, width } => {
+                if *kind == K_LIMB {
+                    out.extend_from_slice(&a.vars[(*id / 4) as usize].shadow[(*id % 4) as usize].to_le_bytes());
+                    continue;
+                }
                 let v = match *kind {
                     K_DIGEST => a.vars[*id as usize].shadow,
                     _ => a.shadow[*id as usize],
@@ -671,6 +735,16 @@ fn transcript_eq(a: &mut Arena, x: &[Item], y: &[Item]) -> Option<F> {
                             F::BlobEq(*i1, *i2)
                         }
                     }
+                    (K_LIMB, K_LIMB) => {
+                        if i1 == i2 {
+                            F::True
+                        } else {
+                            let la = a.mk(Node::Limb(*i1 / 4, (*i1 % 4) as u8));
+                            let lb = a.mk(Node::Limb(*i2 / 4, (*i2 % 4) as u8));
+                            let d = a.mk(Node::Sub(la, lb));
+                            F::EqZ(d)
+                        }
+                    }
                     (K_DIGEST, K_SCALAR) => F::BlobIsTerm(*i1, *i2),
                     (K_SCALAR, K_DIGEST) => F::BlobIsTerm(*i2, *i1),
                     (p, q) if p == q && matches!(p, K_SCALAR | K_G1 | K_G2) => {
@@ -710,7 +784,14 @@ fn transcript_eq(a: &mut Arena, x: &[Item], y: &[Item]) -> Option<F> {
                     return None;
                 }
                 let bytes = &p[off..off + *width];
-                let c = if *width == 32 {
+                let c = if *width == 8 && *kind == K_LIMB {
+                    let mut w8 = [0u8; 8];
+                    w8.copy_from_slice(bytes);
+                    let l = a.mk(Node::Limb(*id / 4, (*id % 4) as u8));
+                    let k = a.mk(Node::Const([u64::from_le_bytes(w8), 0, 0, 0]));
+                    let d = a.mk(Node::Sub(l, k));
+                    F::EqZ(d)
+                } else if *width == 32 {
                     let limbs = fq::from_le_bytes(bytes);
                     let v: U256 = [limbs[0], limbs[1], limbs[2], limbs[3]];
                     match *kind {
@@ -828,6 +909,7 @@ pub fn eval_with(model: &HashMap<u32, U256>, fs: &[F]) -> Vec<bool> {
             let sh = match &a.nodes[t] {
                 Node::Const(c) => *c,
                 Node::Var(v) => fq::reduce(&a.vars[*v as usize].shadow),
+                Node::Limb(v, i) => [a.vars[*v as usize].shadow[*i as usize], 0, 0, 0],
                 Node::Add(x, y) => fq::add(&a.shadow[*x as usize], &a.shadow[*y as usize]),
                 Node::Sub(x, y) => fq::sub(&a.shadow[*x as usize], &a.shadow[*y as usize]),
                 Node::Mul(x, y) => fq::mul(&a.shadow[*x as usize], &a.shadow[*y as usize]),
